@@ -14,12 +14,8 @@ import (
 	"reflect"
 	"sort"
 	"strings"
-	"time"
 
 	"github.com/apache/skywalking-banyandb/banyand/measure"
-	"github.com/apache/skywalking-banyandb/pkg/logger"
-	"github.com/apache/skywalking-banyandb/pkg/verif/ev"
-	"github.com/apache/skywalking-banyandb/pkg/verif/par"
 	"github.com/apache/skywalking-banyandb/pkg/verif/sched"
 )
 
@@ -54,7 +50,7 @@ type world struct {
 	flush    *measure.V5Flush
 	merge    *measure.V5Merge
 	pins     int
-	epochs   map[uint64]int // epoch -> how many queries observed it (outcome)
+	epochs   map[uint64]int  // epoch -> how many queries observed it (outcome)
 	flushed  map[uint64]rows // epoch -> content of the file parts of that epoch
 	snaps    []*snapRec
 	outcomes []string
@@ -252,22 +248,9 @@ func (w *world) checkSnapshot(rec *snapRec) {
 
 func (w *world) outcome(s string) { w.outcomes = append(w.outcomes, s) }
 
-type scenario struct {
-	Name  string   `json:"name"`
-	Roles []string `json:"roles"`
-}
-
-var scenarios = []scenario{
-	{Name: "A", Roles: []string{"snapshot", "introducer", "query"}},
-	{Name: "B", Roles: []string{"introducer", "snapshot", "snapshot2"}},
-	{Name: "C", Roles: []string{"snapshot", "longquery", "close"}},
-}
-
-var base string
-
 var lastOutcomes []string
 
-func setup(sc scenario, seq *int) sched.Harness {
+func measureSetup(sc scenario, seq *int) sched.Harness {
 	*seq++
 	dir := filepath.Join(base, fmt.Sprintf("x%d", *seq))
 	w := &world{dir: dir, expected: map[uint64]rows{}, replaced: map[string]bool{}, viol: map[string]bool{}, epochs: map[uint64]int{}, flushed: map[uint64]rows{}}
@@ -447,203 +430,10 @@ func copyTree(src, dst string) error {
 	})
 }
 
-type scenResult struct {
-	Scenario   string         `json:"scenario"`
-	HarnessErr string         `json:"harness_err,omitempty"`
-	Outcomes   map[string]int `json:"outcomes"`
-	ByPreempt  map[int]int    `json:"by_preempt"`
-	Viol       []violRec      `json:"viol,omitempty"`
-	Executions int            `json:"executions"`
-	MaxPoints  int            `json:"max_points"`
-	Capped     bool           `json:"capped"`
-}
-
-type violRec struct {
-	Key      string   `json:"key"`
-	Scenario scenario `json:"scenario"`
-	Choices  []int    `json:"choices"`
-}
-
-const maxSteps = 20000
-
-func runScenario(sc scenario, bound, shard, shards int, deadline time.Time) scenResult {
-	seq := 0
-	out := scenResult{Scenario: sc.Name}
-	seen := map[string]bool{}
-	var lastW *world
-	x := &sched.Explorer{
-		Bound: bound, MaxSteps: maxSteps, Deadline: deadline, Shard: shard, Shards: shards,
-		Setup: func() sched.Harness {
-			h := setup(sc, &seq)
-			return h
-		},
-	}
-	_ = lastW
-	x.Outcome = func(res *sched.Result) string {
-		if res.Abort != "" {
-			return res.Abort
-		}
-		return strings.Join(lastOutcomes, ";")
-	}
-	x.OnViolate = func(key string, res *sched.Result) {
-		if seen[key] {
-			return
-		}
-		seen[key] = true
-		out.Viol = append(out.Viol, violRec{Key: key, Scenario: sc, Choices: append([]int{}, res.Choices...)})
-	}
-	x.Explore()
-	for i := range out.Viol {
-		for rep := 0; rep < 5; rep++ {
-			keys, _ := runOnce(sc, out.Viol[i].Choices, &seq, false)
-			found := false
-			for _, k := range keys {
-				if k == out.Viol[i].Key {
-					found = true
-				}
-			}
-			if !found {
-				out.HarnessErr = fmt.Sprintf("violation %q of scenario %s did not reproduce on replay %d", out.Viol[i].Key, sc.Name, rep)
-			}
-		}
-	}
-	out.Executions, out.ByPreempt, out.MaxPoints, out.Capped, out.Outcomes = x.Executions, x.ByPreempt, x.MaxPoints, x.Capped, x.Outcomes
-	if x.HarnessErr != "" {
-		out.HarnessErr = x.HarnessErr
-	}
-	return out
-}
-
-func runOnce(sc scenario, choices []int, seq *int, trace bool) ([]string, *sched.Result) {
-	sched.TraceCallers = trace
-	h := setup(sc, seq)
-	res := sched.Run(choices, nil, maxSteps, h.Threads)
-	keys := h.Check(res)
-	switch res.Abort {
-	case "deadlock", "livelock":
-		keys = append(keys, res.Abort)
-	case "panic":
-		keys = append(keys, sched.PanicKey(res))
-	}
-	h.Cleanup()
-	return keys, res
-}
-
-func main() {
-	_ = logger.Init(logger.Logging{Env: "prod", Level: "fatal"})
-	thorough := ev.Thorough()
-	bound := 2
-	budget := 6 * time.Minute
-	if thorough {
-		bound = 3
-		budget = 30 * time.Minute
-	}
-	if rp := ev.Arg("--replay"); rp != "" {
-		replay(rp)
-		return
-	}
-	var err error
-	if wi, wn, ok := par.Worker(); ok {
-		base, err = os.MkdirTemp("/dev/shm", "c19-")
-		if err != nil {
-			panic(err)
-		}
-		defer os.RemoveAll(base)
-		deadline := time.Now().Add(budget)
-		for _, sc := range scenarios {
-			if only := ev.Arg("--scenario"); only != "" && only != sc.Name {
-				continue
-			}
-			r := runScenario(sc, bound, wi, wn, deadline)
-			b, _ := json.Marshal(r)
-			par.Emit(b)
-		}
-		return
-	}
-	r := ev.New("C19", "model_checking")
-	results, perr := par.Run(16)
-	if perr != nil {
-		fmt.Println("HARNESS-ERROR:", perr)
-		os.Exit(2)
-	}
-	execs, maxPts := 0, 0
-	byPre := map[string]int{}
-	outcomes := map[string]int{}
-	perScen := map[string]int{}
-	for _, b := range results {
-		var sr scenResult
-		if err := json.Unmarshal(b, &sr); err != nil {
-			fmt.Println("HARNESS-ERROR: bad worker result:", err)
-			os.Exit(2)
-		}
-		if sr.HarnessErr != "" {
-			fmt.Println("HARNESS-ERROR:", sr.Scenario, sr.HarnessErr)
-			os.Exit(2)
-		}
-		execs += sr.Executions
-		perScen[sr.Scenario] += sr.Executions
-		if sr.MaxPoints > maxPts {
-			maxPts = sr.MaxPoints
-		}
-		for k, v := range sr.ByPreempt {
-			byPre[fmt.Sprint(k)] += v
-		}
-		for k, v := range sr.Outcomes {
-			if k == "" {
-				k = "completed"
-			}
-			outcomes[k] += v
-		}
-		if sr.Capped {
-			r.NotExhaustive("deadline hit in scenario " + sr.Scenario)
-		}
-		for _, v := range sr.Viol {
-			r.Violation(fmt.Sprintf("%s[%s]: %s", v.Scenario.Name, strings.Join(v.Scenario.Roles, "|"), v.Key), v)
-		}
-	}
-	for _, sc := range scenarios {
-		r.Sample(map[string]any{"scenario": sc.Name, "threads": sc.Roles, "executions": perScen[sc.Name],
-			"initial_state": "file parts p1,p2 + memory part p3; introducer = introducePart(b4); flush; merge(all file parts); gc after each"})
-	}
-	r.Set("states", execs)
-	r.Set("transitions", execs)
-	r.Set("traces_validated_against_impl", execs)
-	r.Set("evaluations", execs)
-	r.Set("distinct_nontrivial", len(perScen))
-	r.Set("preemption_bound", bound)
-	r.Set("executions_by_preemptions", byPre)
-	r.Set("executions_by_scenario", perScen)
-	r.Set("outcomes", outcomes)
-	r.Set("max_points_per_execution", maxPts)
-	r.Set("rule", "one execution = one complete schedule (scheduling points = every Lock/RLock/atomic op of measure/snapshot.go, part.go, introducer.go, tstable.go, plus spawned part-removal goroutines) of a 3-thread scenario on a real measure tsTable; stateless search: states/transitions count executions; distinct_nontrivial = scenarios, all of which have a query overlapping snapshot replacement or close")
-	r.Assume("sequential consistency at hooked sync/atomic operations; unsynchronised accesses are invisible to the cooperative scheduler")
-	r.Assume("introducer/flusher/merger loops are replaced by one harness thread calling the loops' step functions in loop order (channels are not hooked)")
-	r.Finish()
-}
-
-func replay(p string) {
-	b, err := os.ReadFile(p)
-	if err != nil {
-		fmt.Println(err)
-		os.Exit(2)
-	}
-	var a struct {
-		Artefact violRec `json:"artefact"`
-	}
-	if err := json.Unmarshal(b, &a); err != nil {
-		fmt.Println(err)
-		os.Exit(2)
-	}
-	base, _ = os.MkdirTemp("/dev/shm", "c19r-")
-	defer os.RemoveAll(base)
-	seq := 0
-	keys, res := runOnce(a.Artefact.Scenario, a.Artefact.Choices, &seq, true)
-	fmt.Printf("scenario %s %v\nabort=%q panic=%v\n", a.Artefact.Scenario.Name, a.Artefact.Scenario.Roles, res.Abort, res.Panic)
-	for i, pt := range res.Points {
-		fmt.Printf("  %3d %-28s -> T%d   %s\n", i, pt.Sig, pt.Enabled[pt.Chosen], pt.Where)
-	}
-	fmt.Println("violations:", keys)
-	if len(keys) > 0 {
-		os.Exit(1)
-	}
+func init() {
+	register(family{Name: "measure", Setup: measureSetup, Scenarios: []scenario{
+		{Name: "A", Roles: []string{"snapshot", "introducer", "query"}},
+		{Name: "B", Roles: []string{"introducer", "snapshot", "snapshot2"}},
+		{Name: "C", Roles: []string{"snapshot", "longquery", "close"}},
+	}})
 }
